@@ -6,7 +6,7 @@ EXTENDS Integers, Sequences, TLC, Json, FiniteSets
 
 CONSTANTS MaxWords
 
-Words == {"FLOOD", "WAIT", "PREMIUM", "X2Y", "FILE9"}
+Words == {"FLOOD", "WAIT", "PREMIUM", "X2Y", "FILE9", "2FA", "3D"}
 Nums == {0, 3, 42, 86400, 2147483647}
 WordSeqs == UNION { [1..n -> Words] : n \in 1..MaxWords }
 
